@@ -9,9 +9,9 @@ import (
 	"regexp"
 	"runtime"
 	"strconv"
-	"syscall"
 	"strings"
 	"sync"
+	"syscall"
 	"testing"
 
 	"verif/rep"
